@@ -35,6 +35,7 @@ IDENTITY_CALLS = {
     "core::result::Result::<T, E>::as_ref", "core::result::Result::<T, E>::as_mut", "core::option::Option::<&T>::copied", "core::option::Option::<&T>::cloned",
     "core::option::Option::<T>::as_deref", "core::result::Result::<T, E>::as_deref", "core::convert::identity", "core::iter::traits::collect::IntoIterator::into_iter",
     "core::slice::<impl [T]>::iter", "core::array::<impl [T; N]>::as_slice", "core::array::<impl [T; N]>::iter",
+    "heapless::string::String::<N>::as_str", "core::iter::traits::iterator::Iterator::copied", "core::iter::traits::iterator::Iterator::cloned",
 }
 # Result/Option wrappers that keep the Ok-ness of their receiver: callee -> (receiver ctor -> result ctor)
 PRESERVING = {
@@ -88,12 +89,17 @@ class Effect:
     def __init__(self, kind, callee, args, node, term, depth, loops, seq, frame):
         self.kind, self.callee, self.args, self.node, self.term, self.depth, self.loops, self.seq, self.frame = kind, callee, args, node, term, depth, loops, seq, frame
 
+    @property
+    def tcallee(self):
+        """the trait-level callee (before static resolution to an impl), e.g. serde's Deserialize::deserialize"""
+        return (self.node.get("callee") if isinstance(self.node, dict) else None) or self.callee
+
     def __repr__(self):
         return "Effect(%s %s)" % (self.kind, self.callee)
 
 
 class State:
-    __slots__ = ("env", "atoms", "effects", "known", "known_not", "done", "result", "loops", "frames", "via_try", "loop_depth", "cut")
+    __slots__ = ("env", "atoms", "effects", "known", "known_not", "done", "result", "loops", "frames", "via_try", "loop_depth", "cut", "trace", "ret_loop_depth")
 
     def __init__(self):
         self.env = {}
@@ -108,6 +114,8 @@ class State:
         self.via_try = None
         self.loop_depth = 0
         self.cut = False
+        self.trace = ()            # loop events on this path: ('break', loop span) | ('iter', loop span)
+        self.ret_loop_depth = 0    # loop nesting depth at which the function returned
 
     def fork(self):
         s = State()
@@ -123,6 +131,8 @@ class State:
         s.via_try = self.via_try
         s.loop_depth = self.loop_depth
         s.cut = self.cut
+        s.trace = self.trace
+        s.ret_loop_depth = self.ret_loop_depth
         return s
 
 
@@ -164,13 +174,46 @@ class Sym:
         fin = []
         for s in out:
             r = s.result
-            if s.done != ("ret", 0) or r is None or r[0] == "ctor":
+            if s.done != ("ret", 0) or r is None:
                 fin.append(s)
                 continue
-            for s2, okb in self.test_variant(r, OK, s):
-                s2.result = ("ctor", OK, (self.proj(r, OK, 0),)) if okb else ("ctor", ERR, (self.proj(r, ERR, 0),))
-                fin.append(s2)
+            if r[0] != "ctor":
+                for s2, okb in self.test_variant(r, OK, s):
+                    r2 = ("ctor", OK, (self.proj(r, OK, 0),)) if okb else ("ctor", ERR, (self.proj(r, ERR, 0),))
+                    for s3, r3 in self.canon(s2, r2, 0):
+                        s3.result = r3
+                        fin.append(s3)
+                continue
+            for s3, r3 in self.canon(s, r, 0):
+                s3.result = r3
+                fin.append(s3)
         return fin
+
+    def canon(self, st, t, depth):
+        """make the Ok/Err/Some/None structure of a value explicit: a wrapped opaque Result/Option (x.map(f), x.ok_or(e), ..)
+        is split on the outcome of the underlying term and rebuilt from constructors -> list of (state, term)"""
+        if depth > 3:
+            return [(st, t)]
+        if t[0] == "ctor":
+            cur = [(st, [])]
+            for a in t[2]:
+                nxt = []
+                for s, done in cur:
+                    for s2, a2 in self.canon(s, a, depth + 1):
+                        nxt.append((s2, done + [a2]))
+                cur = nxt
+            return [(s, ("ctor", t[1], tuple(done))) for s, done in cur]
+        if t[0] == "call" and t[1] in PRESERVING and PRESERVING[t[1]] and t[2]:
+            mapping = PRESERVING[t[1]]
+            outs = sorted(set(mapping.values()))
+            first = outs[0] if outs[0] in (OK, SOME) else outs[-1]
+            res = []
+            for s2, yes in self.test_variant(t, first, st):
+                c = first if yes else SIBLING[first]
+                v = ("ctor", c, ()) if c == NONE else ("ctor", c, (self.proj(t, c, 0),))
+                res.extend(self.canon(s2, v, depth + 1))
+            return res
+        return [(st, t)]
 
     def _run(self):
         st = State()
@@ -283,6 +326,8 @@ class Sym:
             for n, v in t[2]:
                 if n == i:
                     return v
+        if t[0] == "call" and t[1] == "sym::find_eq" and ctor == SOME and i == 0:
+            return t[2][1]      # the element found by an equality predicate is equal to the value searched for
         # Ok-ness preserving wrappers with a known payload relation
         if t[0] == "call" and t[1] in (R + "map_err", R + "inspect", R + "inspect_err") and ctor == OK and i == 0:
             return self.proj(t[2][0], OK, 0)
@@ -450,6 +495,12 @@ class Sym:
             if "Fn" in rk:
                 return [(st, ("fn", path, "ctor"))]
             return [(st, ("ctor", path, ()))]
+        if rk == "SelfCtor":
+            ty = n.get("ty") or ""
+            if ty.startswith("fn(") or "fn(" in ty.split(" ")[0]:
+                out_ty = ty.split("-> ", 1)[1].split(" {", 1)[0] if "-> " in ty else ty
+                return [(st, ("fn", split_generic(out_ty)[0], "ctor"))]
+            return [(st, ("ctor", split_generic(ty)[0], ()))]
         if rk in ("Fn", "AssocFn"):
             return [(st, ("fn", r.get("path")))]
         if rk.startswith("Static"):
@@ -521,7 +572,10 @@ class Sym:
                 out.append((s, None))
                 continue
             fields = tuple(sorted(zip(names, ts[:len(names)])))
-            t = ("struct", n["res"].get("ctor_of") or n["res"].get("path"), fields)
+            spath = n["res"].get("ctor_of") or n["res"].get("path")
+            if "SelfTy" in (n["res"].get("rk") or "") or not spath:
+                spath = split_generic(re.sub(r"<'[a-z_]+(, )?", "<", n.get("ty") or ""))[0] or spath
+            t = ("struct", spath, fields)
             if len(ts) > len(names):
                 t = t + (ts[-1],)
             out.append((s, t))
@@ -696,10 +750,12 @@ class Sym:
                 if s.done is None:
                     s.done = ("ret", self.frame_id(s))
                     s.result = t
+                    s.ret_loop_depth = s.loop_depth
                 out.append((s, None))
         else:
             st.done = ("ret", self.frame_id(st))
             st.result = ("tuple", ())
+            st.ret_loop_depth = st.loop_depth
             out.append((st, None))
         return out
 
@@ -745,35 +801,33 @@ class Sym:
                             e = ("conv", e)
                         s2.result = ("ctor", ERR, (e,))
                     s2.via_try = n
+                    s2.ret_loop_depth = s2.loop_depth
                     out.append((s2, None))
         return out
 
     def ev_loop(self, n, st):
         fid = self.frame_id(st)
         target = (fid, n.get("hid"))
-        # kill what the body may change
+        # a local that is re-assigned as a whole inside the body has an unknown value in "some iteration";
+        # a container mutated in place (x.f = .., x.push(..)) keeps its identity (the term that created it)
         for x in H.walk(n["body"]):
-            if x.get("k") in ("assign", "assignop"):
+            if x.get("k") in ("assign", "assignop") and x["l"].get("k") == "path":
                 lid = H.local_id(x["l"])
-                b = x["l"]
-                while lid is None and H.strip(b).get("k") in ("field", "index"):
-                    b = H.strip(b)["base"]
-                    lid = H.local_id(b)
                 if lid is not None:
                     st.env[(fid, lid)] = self.fresh("loop-var")
-            if x.get("k") == "addrof" and x.get("mut"):
-                lid = H.local_id(x["e"])
-                if lid is not None and st.env.get((fid, lid), ("x",))[0] not in ("param",):
-                    pass
         st.loops += 1
         st.loop_depth += 1
         out = []
+        lsite = self.site(n, st)
         for s, t in self.ev(n["body"], st):
             if s.done is not None and s.done[0] in ("break", "continue") and s.done[1] == target:
+                s.trace = s.trace + ((("break" if s.done[0] == "break" else "iter"), lsite),)
                 s.done = None
                 t = s.result if s.result is not None else self.fresh("loop")
                 s.result = None
-            if s.done is None:
+                s.loop_depth -= 1
+            elif s.done is None:
+                s.trace = s.trace + (("iter", lsite),)
                 s.loop_depth -= 1
                 t = t if t is not None else self.fresh("loop")
             out.append((s, t))
@@ -853,7 +907,8 @@ class Sym:
     # ---- calls
     def ev_call(self, n, st):
         if "ctor" in n:
-            return [(s, None if s.done is not None else ("ctor", n["ctor"], tuple(ts))) for s, ts in self.ev_seq(n["args"], st)]
+            cpath = n["ctor"][5:] if n["ctor"].startswith("Self:") else n["ctor"]
+            return [(s, None if s.done is not None else ("ctor", cpath, tuple(ts))) for s, ts in self.ev_seq(n["args"], st)]
         f = H.strip(n["f"])
         nodes = list(n["args"])
         callee = n.get("resolved") or n.get("callee")
@@ -919,6 +974,20 @@ class Sym:
                         s2.done = ("panic", n.get("sp"), c)
                         out.append((s2, None))
                 return out
+        itm = next((c for c in (trait_callee, callee) if c in ("core::iter::traits::iterator::Iterator::any", "core::iter::traits::iterator::Iterator::find", "core::iter::traits::iterator::Iterator::position")), None)
+        if itm is not None and len(args) == 2 \
+                and args[0][0] == "array" and args[1][0] == "closure" and args[1][1] in self.closures:
+            # `arr.iter().any(|k| *k == x)` is membership of x in the literal array: canonical form contains(arr, x)
+            probe = ("unk", -1, "elem")
+            r = self.apply_closure(args[1], [probe])
+            x = None
+            if r is not None and r[0] == "bin" and r[1] == "==":
+                x = r[3] if r[2] == probe else r[2] if r[3] == probe else None
+            if x is not None and probe not in list(subterms(x)):
+                member = ("call", "core::slice::<impl [T]>::contains", (args[0], x), "")
+                if itm.endswith("::any"):
+                    return [(st, member)]
+                return [(st, ("call", "sym::find_eq", (args[0], x), ""))]
         if callee in ("core::slice::<impl [T]>::len", "core::array::<impl [T; N]>::len") and args and args[0][0] == "array":
             return [(st, ("lit", len(args[0][1])))]
         # identity conversions: From<T> for T / Into
@@ -940,9 +1009,10 @@ class Sym:
                     cf = self.F.trait_impl_fn(ci, "from" if ci.startswith("<") and " as core::convert::From<" in ci else "try_from")
                 except ValueError:
                     cf = None
-                if cf is not None and cf.get("body") is not None and self.inline(cf["path"], n):
-                    body_fn = cf
-                    callee = cf["path"]
+                if cf is not None and cf.get("body") is not None:
+                    callee = cf["path"]       # canonical callee: the /repo impl, however the conversion was spelled
+                    if self.inline(cf["path"], n):
+                        body_fn = cf
         if body_fn is not None and len(st.frames) <= self.max_inline and all(f[1] is not body_fn for f in st.frames) and self.inline(callee, n):
             return self.do_inline(n, body_fn, args, st)
         t = ("call", callee or trait_callee or "?", tuple(args), site)
@@ -982,6 +1052,8 @@ class Sym:
                     s2.done = None
                     t = s2.result
                     s2.result = None
+                    s2.ret_loop_depth = 0
+                    s2.via_try = None
                 if s2.frames and s2.frames[-1][0] == fid:
                     s2.frames = s2.frames[:-1]
                 else:
@@ -1220,6 +1292,10 @@ class Sym:
         return out
 
     def test_eq(self, t, v, st):
+        if v[0] == "lit" and isinstance(v[1], bool) and t[0] != "lit":
+            return [(s, b == v[1]) for s, b in self.truth(t, st)]
+        if t[0] == "lit" and isinstance(t[1], bool) and v[0] != "lit":
+            return [(s, b == t[1]) for s, b in self.truth(v, st)]
         if t[0] == "lit" and v[0] == "lit":
             return [(st, t[1] == v[1])]
         if t[0] == "array" and v[0] == "array" and all(x[0] == "lit" for x in t[1] + v[1]):
